@@ -153,8 +153,22 @@ def Op.projEdgeSlot (o : Op) (s : Slot) (l : String) : Op :=
   | .top i => { o with topEdges := modifyAt o.topEdges i (addLabel · l) }
   | .side i => { o with sideEdges := modifyAt o.sideEdges i (addLabel · l), sideOther := o.sideOther.set i none }
 
+/-- the label list a slot holds (empty: not a `Project`) -/
+def Op.slotLabels (o : Op) : Slot → List String
+  | .bottom i => o.bottomEdges.getD i []
+  | .top i => o.topEdges.getD i []
+  | .side i => o.sideEdges.getD i []
+
+/-- `Project.check_length` at the end of `add_label` (and of the constructor): `0 < len(self.label) < 3`, otherwise
+    `EdgeCreationError` — an edge can be projected to one surface or to the intersection of two -/
+def labelsOk (ls : List String) : Bool := 0 < ls.length && ls.length < 3
+
+/-- `_project_update` with `Project.add_label`'s refusal of a third surface -/
+def Op.projEdgeSlot? (o : Op) (s : Slot) (l : String) : Option Op :=
+  if labelsOk (addLabel (o.slotLabels s) l) then some (o.projEdgeSlot s l) else none
+
 def Op.projectEdge (o : Op) (c1 c2 : Nat) (l : String) : Option Op :=
-  (slotOfEdge c1 c2).map (fun s => o.projEdgeSlot s l)
+  (slotOfEdge c1 c2).bind (fun s => o.projEdgeSlot? s l)
 
 /-- `points[c].project(label)` on the operation's points `bottom_face.points + top_face.points` -/
 def Op.projectCorner (o : Op) (c : Nat) (l : String) : Op :=
@@ -232,8 +246,8 @@ def faceStepsP (top : Bool) : List Step := (List.range 4).map (.point top)
 
 def Op.applyStep (o : Op) (l : String) : Step → Option Op
   | .pedge a b => if guardEdge a b then none else o.projectEdge a b l
-  | .sideEdge i => some (o.projEdgeSlot (.side i) l)
-  | .faceEdge top i => if guardCorner4 i then none else some (o.projEdgeSlot (if top then .top i else .bottom i) l)
+  | .sideEdge i => o.projEdgeSlot? (.side i) l
+  | .faceEdge top i => if guardCorner4 i then none else o.projEdgeSlot? (if top then .top i else .bottom i) l
   | .point top i => some (o.projectPoint top i l)
 
 def Op.applySteps (o : Op) (l : String) (ss : List Step) : Option Op :=
@@ -435,6 +449,9 @@ def handle (op : String) (args : List String) : Option String :=
   | "c10.geo" => handleGeo args
   | "c10.box" => handleBox args
   | "c10.extrude" => handleExtrude args
+  | "c10.revolve" => handleRevolve args
+  | "c10.wedge" => handleWedge args
+  | "c10.extrudes" => handleExtrudeScalar args
   | "c10.addr" => handleAddr args
   | "c10.face" => handleFace args
   | _ => none
